@@ -40,6 +40,16 @@ fn run_ops(n: usize, ops: &[(char, usize, usize)], every_step: bool) -> Option<(
                     cur_n = a;
                     comp = (0..a).collect();
                 }
+                'k' => {
+                    // clone: the copy is an independent structure with the same partition; continue on the copy and
+                    // disturb the original, which must not leak into the copy
+                    let mut orig = std::mem::replace(&mut d, DSU::new(0));
+                    d = orig.clone();
+                    if cur_n >= 2 {
+                        orig.un(0, cur_n - 1);
+                        orig.reset(1);
+                    }
+                }
                 _ => {}
             }
             // lookups compress paths: observing after every step would never let the forest grow deep, so there is a mode
@@ -147,7 +157,9 @@ pub fn run(seed: u64, replay: Option<String>) -> Outcome {
         let mut cur = n;
         let mut ops = Vec::new();
         for _ in 0..10 {
-            if rng.below(8) == 0 {
+            if rng.below(10) == 0 {
+                ops.push(('k', 0, 0));
+            } else if rng.below(8) == 0 {
                 cur = 1 + rng.below(8) as usize;
                 ops.push(('r', cur, 0));
             } else {
